@@ -6,8 +6,9 @@
                                         per call of run_next_* (how many events happen before the
                                         crash, and the adversary's publication order); the operator
                                         removes a directory exactly when the script names it
-     fixed                              false = examine as it is in /repo today; true = with the one-line
-                                        repair (an iteration directory without plate directories is skipped)
+     fixed                              false = examine without, true = with the one-line repair (an iteration
+                                        directory without plate directories is skipped); which one /repo's script is
+                                        is PROVED from its translation: C19_model_is_source_examine_determines_fixed
      completed f                        the steps whose directory holds the marker, in (iteration, plate)
                                         order, each with its files AND the command that produced them
      ideal md bs n k                    the first k steps of the execution that is never interrupted
